@@ -3,8 +3,9 @@
    TextRecords.v, Text.v, Preproc.v; the model is Model/Text.v and Model/Preproc.v.
 
    Vocabulary.  [o : toracles] collects the library functions the model does not define
-   (strconv.IsPrint, net.ParseIP / IP.String, net.ParseCIDR / IPNet.String, unicode.ToLower);
-   the premises named Hip_* and Hlow_* below are the library behaviour the proofs rely on
+   (strconv.IsPrint, net.ParseIP / IP.String, net.ParseCIDR / IPNet.String);
+   the premises of the theorems about o are the library behaviour the proofs rely on: ParseIP
+   inverts IP.String on 16-byte addresses, rejects the empty text, and IP.String prints no ','
    (every IsPrint is allowed).  [serial] is Codec.Serial.  [wf_line o serial l]: the line parses
    (15 modelled record types: % Z . & + = @ S C ^ ' : M 8 !; not B/H) to a record with
    bytes < 256, quoted labels shorter than 256 bytes, numbers inside their width, locations of
@@ -12,7 +13,7 @@
    wf_recordb, which also lists the shapes deliberately left outside).
    [finding_class] = the recorded defects F12 (explicit SOA serial 0), F26 (single-label
    absolute server name), F27 (root wildcard map); each is shown to be real by a witness.
-   [convert o v2 nornet r] = the key/value records of MarshalMap (v2 = key layout,
+   [convert v2 nornet r] = the key/value records of MarshalMap (v2 = key layout,
    nornet = NoRnetOutput). *)
 From DnsV Require Import Model.Text Model.Preproc Proofs.Quote Proofs.TextRecords Proofs.Text Proofs.Preproc.
 From Coq Require Import Permutation.
@@ -20,18 +21,16 @@ Open Scope N_scope.
 
 (* every record parsed from a well-formed line re-serialises to text that parses back to a record
    compiling to exactly the same keys and values, and re-serialising again gives the same text *)
-Theorem C09_roundtrip_outside_finding : forall o serial,
+Theorem C09_roundtrip_outside_finding : forall o,
   (forall a, wf_bytes a -> length a = 16%nat -> o_parse_ip o (o_print_ip o a) = Some a) ->
   o_parse_ip o [] = None ->
   (forall a, contains 44 (o_print_ip o a) = false) ->
-  (forall a b, to_lower o (a ++ 46 :: b) = to_lower o a ++ 46 :: to_lower o b) ->
-  (forall a, contains 46 a = false -> contains 46 (to_lower o a) = false) ->
-  forall v2 nornet l r,
+  forall serial v2 nornet l r,
   wf_line o serial l -> parse_line o serial l = Ok r -> finding_class o serial r = false ->
   exists r', parse_line o serial (marshal o r) = Ok r' /\
-             convert o v2 nornet r' = convert o v2 nornet r /\
+             convert v2 nornet r' = convert v2 nornet r /\
              marshal o r' = marshal o r.
-Proof. exact roundtrip_outside_finding. Qed.
+Proof. exact roundtrip_stmt. Qed.
 Print Assumptions C09_roundtrip_outside_finding.
 
 (* F12: Zexample.com,a.ns.example.com,dns.example.com,0,7200,1800,604800,120,120,,  (Codec.Serial 7):
@@ -39,7 +38,7 @@ Print Assumptions C09_roundtrip_outside_finding.
 Theorem C09_roundtrip_f12_refuted : exists r r',
   wf_line o_plain 7 f12_line /\ parse_line o_plain 7 f12_line = Ok r /\ finding_class o_plain 7 r = true /\
   parse_line o_plain 7 (marshal o_plain r) = Ok r' /\
-  convert o_plain false false r' <> convert o_plain false false r.
+  convert false false r' <> convert false false r.
 Proof. exact (proj1 f12_refuted). Qed.
 Print Assumptions C09_roundtrip_f12_refuted.
 
@@ -47,7 +46,7 @@ Print Assumptions C09_roundtrip_f12_refuted.
 Theorem C09_roundtrip_f26_refuted : exists r r',
   wf_line o_plain 7 f26_line /\ parse_line o_plain 7 f26_line = Ok r /\ finding_class o_plain 7 r = true /\
   parse_line o_plain 7 (marshal o_plain r) = Ok r' /\
-  convert o_plain false false r' <> convert o_plain false false r.
+  convert false false r' <> convert false false r.
 Proof. exact f26_refuted. Qed.
 Print Assumptions C09_roundtrip_f26_refuted.
 
@@ -55,7 +54,7 @@ Print Assumptions C09_roundtrip_f26_refuted.
 Theorem C09_roundtrip_f27_refuted : exists r r',
   wf_line o_plain 7 f27_line /\ parse_line o_plain 7 f27_line = Ok r /\ finding_class o_plain 7 r = true /\
   parse_line o_plain 7 (marshal o_plain r) = Ok r' /\
-  convert o_plain false false r' <> convert o_plain false false r.
+  convert false false r' <> convert false false r.
 Proof. exact f27_refuted. Qed.
 Print Assumptions C09_roundtrip_f27_refuted.
 
@@ -84,9 +83,9 @@ Theorem C09_rangepoint_text_key : forall o serial,
      else 44 :: print_dec (if is4 ip then (ml + 160) mod 256 else ml) ++ 44 :: loctext locid) /\
   (is4 ip = true -> 96 <= ml -> (ml + 160) mod 256 = ml - 96) /\
   exists r', parse_line o serial (marshal o (RRangePoint lmap ip ml null locid)) = Ok r' /\
-    convert o v2 nornet r' =
+    convert v2 nornet r' =
       [([0; 0; 0; 33] ++ lmap ++ ip ++ [if null then 0 else ml], if null then [] else locid)] /\
-    convert o v2 nornet r' = convert o v2 nornet (RRangePoint lmap ip ml null locid).
+    convert v2 nornet r' = convert v2 nornet (RRangePoint lmap ip ml null locid).
 Proof. exact rangepoint_text_key. Qed.
 Print Assumptions C09_rangepoint_text_key.
 
@@ -95,12 +94,11 @@ Print Assumptions C09_rangepoint_text_key.
    accumulator accepts, and - Z lines - is outside F12) the preprocessor succeeds, and its output
    compiles to the same records as the original, whatever order the '!' lines are written in.
    [rearrange] is the rearranger (C03), any function with the two stated properties. *)
-Theorem C09_preproc_same_db_outside_finding : forall o v2 serial pserial rearrange,
+Theorem C09_preproc_same_db_outside_finding : forall o,
   (forall a, wf_bytes a -> length a = 16%nat -> o_parse_ip o (o_print_ip o a) = Some a) ->
   o_parse_ip o [] = None ->
   (forall a, contains 44 (o_print_ip o a) = false) ->
-  (forall a b, to_lower o (a ++ 46 :: b) = to_lower o a ++ 46 :: to_lower o b) ->
-  (forall a, contains 46 a = false -> contains 46 (to_lower o a) = false) ->
+  forall v2 serial pserial rearrange,
   serial <= max32 ->
   pserial = serial \/ pserial = 0 ->
   rearrange [] = [] ->
@@ -114,7 +112,7 @@ Theorem C09_preproc_same_db_outside_finding : forall o v2 serial pserial rearran
     forall pts, Permutation pts (rearrange nets) ->
       exists kvs', compile o rearrange v2 serial (body ++ map (marshal o) pts) = Ok kvs' /\
                    Permutation kvs' kvs.
-Proof. exact preproc_same_db. Qed.
+Proof. exact preproc_stmt. Qed.
 Print Assumptions C09_preproc_same_db_outside_finding.
 
 (* F12 at file level: the one-line file of the F12 witness, preprocessed with serial 7 and compiled
@@ -134,7 +132,19 @@ Example C09_example :
   exists r, parse_line o_ex 7 ex_line = Ok r /\ finding_class o_ex 7 r = false /\
     marshal o_ex r <> ex_line /\
     exists r', parse_line o_ex 7 (marshal o_ex r) = Ok r' /\
-      convert o_ex true false r' = convert o_ex true false r /\ marshal o_ex r' = marshal o_ex r /\
-      convert o_ex true false r <> [].
+      convert true false r' = convert true false r /\ marshal o_ex r' = marshal o_ex r /\
+      convert true false r <> [].
 Proof. exact roundtrip_example. Qed.
 Print Assumptions C09_example.
+
+(* non-vacuity at file level: a file with a comment, %ab,10.0.0.0/8,m1, a Z line without serial and an
+   address line satisfies wf_file (with a two-point rearranger); it is preprocessed to four lines
+   (the Z line changed: serial filled in) and both texts compile (v2 keys) to the same five records *)
+Example C09_file_example :
+  wf_file o_fx 7 fx_file /\
+  exists out k, preprocess o_fx fx_rearrange 7 fx_file = Ok out /\
+    length out = 4%nat /\ nth 0 out [] <> nth 2 fx_file [] /\
+    compile o_fx fx_rearrange true 7 fx_file = Ok k /\ compile o_fx fx_rearrange true 7 out = Ok k /\
+    length k = 5%nat.
+Proof. exact file_example. Qed.
+Print Assumptions C09_file_example.
